@@ -17,17 +17,17 @@ PASS_THROUGH = re.compile(
     r"|core::borrow::Borrow(Mut)?::borrow(_mut)?"
     r"|<.* as core::ops::try_trait::Try>::branch|core::ops::try_trait::Try::branch"
     r"|<.* as core::ops::try_trait::FromResidual(<.*>)?>::from_residual"
-    r"|core::result::Result::(map_err|as_ref|as_mut|ok|cloned|copied)"
-    r"|core::option::Option::(as_ref|as_mut|cloned|copied|as_deref|ok_or|ok_or_else|take)"
+    r"|core::result::Result(<[^>]*>)?::(map_err|as_ref|as_mut|ok|cloned|copied)"
+    r"|core::option::Option(<[^>]*>)?::(as_ref|as_mut|cloned|copied|as_deref|ok_or|ok_or_else|take)"
     r"|<.* as alloc::borrow::ToOwned>::to_owned|alloc::borrow::ToOwned::to_owned"
     r"|alloc::vec::Vec::as_slice|alloc::string::String::as_str|alloc::boxed::Box::new"
     r"|core::mem::replace|core::mem::take"
-    r"|core::(result::Result|option::Option)::(unwrap|expect|unwrap_or_default|unwrap_unchecked)"
+    r"|core::(result::Result|option::Option)(<[^>]*>)?::(unwrap|expect|unwrap_or_default|unwrap_unchecked)"
     r")$")
 
 # calls whose result is *derived from* their first argument (closure-transformed); followed only by deep origin queries
 DERIVED_THROUGH = re.compile(
-    r"^(core::(result::Result|option::Option)::(map|and_then|map_or|map_or_else|unwrap_or|unwrap_or_else|filter|or|or_else|ok_or|ok_or_else)"
+    r"^(core::(result::Result|option::Option)(<[^>]*>)?::(map|and_then|map_or|map_or_else|unwrap_or|unwrap_or_else|filter|or|or_else|ok_or|ok_or_else)"
     r")$")
 
 TRY_BRANCH = re.compile(r"core::ops::try_trait::Try(>)?::branch$")
@@ -265,9 +265,14 @@ class Body:
                     elif k == "bin":
                         a = Atom("bin", rv["op"], bb, rest, rv)
                         out[a.key()] = a
+                        if deep:
+                            push_op(rv["a"], ())
+                            push_op(rv["b"], ())
                     elif k == "un":
                         a = Atom("un", rv["op"], bb, rest, rv)
                         out[a.key()] = a
+                        if deep:
+                            push_op(rv["a"], ())
                     elif k == "disc":
                         a = Atom("disc", rv["enum"], bb, rest, rv)
                         out[a.key()] = a
